@@ -99,7 +99,7 @@ type c10Mid struct {
 }
 
 type c10Op struct {
-	K        string  `json:"k"` // create delete exit gone nodegone nodeback cniadd rpod reni gccr gcsec gcmem
+	K        string  `json:"k"` // create delete exit gone nodegone nodeback release cniadd rpod reni gccr gcsec gcmem
 	P        int     `json:"p,omitempty"`
 	N        int     `json:"n,omitempty"`
 	CF       uint16  `json:"cf,omitempty"`
@@ -237,6 +237,10 @@ type c10World struct {
 	pods     []c10PodState
 	nt       bool
 	noGuard  bool
+	// interfaces the environment detached or deleted (instance release); "Bind => attached" is not
+	// demanded of the controllers for them until they are attached again
+	envPulled  map[string]bool
+	envDeleted map[string]bool
 	// per-step state of the read-back fault
 	createdInStep bool
 	afterList     func()
@@ -268,7 +272,7 @@ const c10Nodes = 3 // node-0, node-1: ordinary (trunk-capable when trunk is on);
 
 func c10NewWorld(c *vt.Ctx, s c10Scenario) *c10World {
 	w := &c10World{c: c, s: s, start: time.Now(), seen: map[uint16]bool{}, snaps: map[string]c10Snap{}, gen: map[string]int{},
-		boundID: map[string]string{}, observed: map[string]time.Time{}, released: map[string]bool{}, everRef: map[string]bool{}, added: map[string][2]string{}}
+		boundID: map[string]string{}, observed: map[string]time.Time{}, released: map[string]bool{}, everRef: map[string]bool{}, added: map[string][2]string{}, envPulled: map[string]bool{}, envDeleted: map[string]bool{}}
 	w.pods = make([]c10PodState, len(s.Pods))
 	w.closed = len(s.SeedENIs) == 0 && len(s.SeedRecs) == 0
 
@@ -526,6 +530,26 @@ var c10Edges = map[[2]string]bool{
 
 const c10KnownDetaching = "C10-detaching-from-nonbind"
 const c10KnownDetachingUnbind = "C10-detaching-from-unbind"
+
+// a pod with a fixed AND an elastic allocation: the elastic interface is created with DeleteOnRelease, the
+// cloud deletes it with a released instance, the retained record then names a dead interface and can
+// never be bound again (the fixed interface is not given back either)
+const c11KnownMixedRelease = "C11-mixed-pod-elastic-eni-deleted-on-release"
+
+// mixedReleased: the record has a fixed allocation, and a non-fixed allocation of it lost its interface
+// to an instance release
+func (w *c10World) mixedReleased(rec c10Snap) bool {
+	if !rec.HasFixed {
+		return false
+	}
+	for _, a := range rec.Allocs {
+		if !a.Fixed && w.envDeleted[a.ENI] {
+			return true
+		}
+	}
+	return false
+}
+
 const c10KnownRollback = "C10-rollback-stops-at-first-error"
 
 // observe compares the stored record with the last snapshot; it is called after every
@@ -798,6 +822,32 @@ func (w *c10World) nodeOp(k string, n int) {
 	}
 }
 
+// releaseNode: the instance behind node n is released. Its pods vanish with it, its Node object is
+// removed, and the cloud treats the attached interfaces according to their DeleteOnRelease option.
+func (w *c10World) releaseNode(n int) {
+	n = ((n % c10Nodes) + c10Nodes) % c10Nodes
+	w.c.Label("instance-released")
+	for i := range w.pods {
+		if p := w.getPod(i); p != nil && p.Spec.NodeName == c10NodeName(n) {
+			w.podOp("gone", i, 0)
+		}
+	}
+	w.nodeOp("nodegone", n)
+	deleted, detached := w.cloud.releaseInstance(c10Instance(n))
+	w.c.Trace("  instance %s released: cloud deleted %v, detached %v", c10Instance(n), deleted, detached)
+	w.mu.Lock()
+	for _, id := range append(deleted, detached...) {
+		w.envPulled[id] = true
+	}
+	w.mu.Unlock()
+	for _, id := range deleted {
+		w.envDeleted[id] = true
+		if w.everRef[id] {
+			w.c.Label("instance-released:referenced-interface-deleted-by-cloud")
+		}
+	}
+}
+
 // managed reports whether the controllers are responsible for the pod at all: CRD mode, the
 // pod-eni annotation, or a node in exclusive ENI mode (judged from the harness' own node
 // table, i.e. also while the Node object is momentarily missing)
@@ -1055,6 +1105,9 @@ func (w *c10World) runOp(i int, op c10Op) {
 	case "nodegone", "nodeback":
 		w.cloud.beginStep(i, 0, nil)
 		w.nodeOp(op.K, op.N)
+	case "release":
+		w.cloud.beginStep(i, 0, nil)
+		w.releaseNode(op.N)
 	case "cniadd":
 		w.cloud.beginStep(i, 0, nil)
 		w.cniAdd(op.P)
@@ -1279,6 +1332,12 @@ func (w *c10World) endStep() {
 		}
 		for _, a := range r.Spec.Allocations {
 			e, ok := w.cloud.get(a.ENI.ID)
+			if ok && e.Status == aliyunClient.ENIStatusInUse {
+				delete(w.envPulled, a.ENI.ID)
+			}
+			if w.envPulled[a.ENI.ID] {
+				continue
+			}
 			if !ok || e.Status != aliyunClient.ENIStatusInUse || e.Instance != r.Status.InstanceID {
 				w.c.Fatalf("C10(1): step %d (%s): record %s is in phase Bind (instance %s) but interface %s is status=%q instance=%q (exists=%v)",
 					w.step, w.actor, r.Name, r.Status.InstanceID, a.ENI.ID, e.Status, e.Instance, ok)
@@ -1410,9 +1469,14 @@ func (w *c10World) endState() {
 		case pod == nil && fixed:
 			w.c.Label("end:fixed-deleted")
 			if rec.Present {
+				if w.mixedReleased(rec) && w.known(c11KnownMixedRelease) {
+					w.c.Label("known:" + c11KnownMixedRelease)
+					continue
+				}
 				for _, a := range rec.Allocs {
 					if _, ok := w.cloud.get(a.ENI); !ok {
-						w.c.Fatalf("C11(a): retained record %s references interface %s which no longer exists", name, a.ENI)
+						w.c.Fatalf("C11(a): retained record %s references interface %s (fixed=%v) which no longer exists (deleted by the cloud with its released instance: %v)",
+							name, a.ENI, a.Fixed, w.envDeleted[a.ENI])
 					}
 				}
 			}
@@ -1424,6 +1488,10 @@ func (w *c10World) endState() {
 			}
 			if !w.managed(pod) {
 				w.c.Label("end:fixed-alive-unmanaged")
+				continue
+			}
+			if w.mixedReleased(rec) && w.known(c11KnownMixedRelease) {
+				w.c.Label("known:" + c11KnownMixedRelease)
 				continue
 			}
 			rejected := false
